@@ -45,7 +45,7 @@ CLAIMED["C02"] = dict(
 )
 CLAIMED["C03"] = dict(
     category="exploration",
-    text="Positive side: every program of " + UNI + " is well typed by construction in the reference system and printed with maximal annotations, so check must accept it. Negative side: every single-site mutant that the harness's reference checker rejects must be rejected (core catalogue on a stride of the universe; all 109k System-F / F-omega mutants incl. escaping abstract types). Type-equivalence matrix: all ordered pairs of 383 small types (quantifiers, free vs bound variables, an alias, pairs, existentials, operator applications) are accepted as equal iff alpha-equivalent. Declarations: 516 data/codata declarations over a pool of 3 names are accepted iff the names are distinct.",
+    text="Positive side: every program of " + UNI + " is well typed by construction in the reference system and printed with maximal annotations, so check must accept it. Negative side: every single-site mutant that the harness's reference checker rejects must be rejected (core catalogue on a stride of the universe; all 109k System-F / F-omega mutants incl. escaping abstract types). Type-equivalence matrix: all ordered pairs of 383 small types (quantifiers, free vs bound variables, an alias, pairs, existentials, operator applications) are accepted as equal iff alpha-equivalent. Declarations: 516 data/codata declarations over a pool of 3 names are accepted iff the names are distinct. Kinding: all 7.4k type expressions with <= 4 nodes (application, arrows, products, forall / exists / type-level fn at three binder kinds) are accepted iff a reference F-omega kinding judgment kinds them.",
     design_ref="C03",
     note="Trusts the generator's typing discipline (type-directed construction) and the annotation policy; a rejected class is first treated as a generator bug.",
     technique="bounded-exhaustive enumeration of well-typed programs and of definite-error mutants, accept/reject oracle",
